@@ -249,23 +249,32 @@ def list_append(interp, path, lst: SeqV, item):
     lst.term = mkseq(list(lst.term.blocks) + [LitB([item])])
 
 
+def _plus(a, b):
+    if isinstance(a, int) and a == 0:
+        return b
+    if isinstance(b, int) and b == 0:
+        return a
+    return a + b
+
+
 def seq_len(interp, t: SeqT, path):
     n = 0
     for b in t.blocks:
         if isinstance(b, LitB):
-            n = n + len(b.items)
+            n = _plus(n, len(b.items))
         elif isinstance(b, GuardB):
             inner = seq_len(interp, b.body, path)
-            n = n + z3.If(interp.zbool(b.cond), inner if is_z3(inner) else z3.IntVal(inner), z3.IntVal(0))
+            n = _plus(n, z3.If(interp.zbool(b.cond), inner if is_z3(inner) else z3.IntVal(inner), z3.IntVal(0)))
         elif isinstance(b, CompB):
             if b.guard is True and len(b.body.blocks) == 1 and isinstance(b.body.blocks[0], LitB):
-                n = n + ops.base_len(b.base) * len(b.body.blocks[0].items)
+                k_ = len(b.body.blocks[0].items)
+                n = _plus(n, ops.base_len(b.base) if k_ == 1 else ops.base_len(b.base) * k_)
             else:
                 c = ops.abs_const('len:' + canon(b), z3.IntSort(), 'len')
                 path.define(c >= 0)
                 ex = interp.exists_block(b, path)
                 path.define((c > 0) == interp.zbool(ex))
-                n = n + c
+                n = _plus(n, c)
     return n
 
 
@@ -491,13 +500,13 @@ def do_slice(interp, obj, lo, hi, st, path):
             n = z3.Length(z)
             if isinstance(lo, int) and lo >= 0 and hi is None:
                 # xs[k:]  ==  extract(xs, k, len - k)   (z3's extract yields the empty sequence when k > len)
-                sub = z3.SubSeq(z, z3.IntVal(lo), n - lo)
+                sub = ops.subseq(z, z3.IntVal(lo), n - lo)
             elif lo is None and isinstance(hi, int) and hi < 0:
-                sub = z3.SubSeq(z, z3.IntVal(0), n + hi)
+                sub = ops.subseq(z, z3.IntVal(0), n + hi)
             else:
                 a = _norm_bound(lo, n, 0)
                 b = _norm_bound(hi, n, n)
-                sub = z3.SubSeq(z, a, z3.If(b - a > 0, b - a, z3.IntVal(0)))
+                sub = ops.subseq(z, a, z3.If(b - a > 0, b - a, z3.IntVal(0)))
             td = _elem_td(interp, t)
             if td is None:
                 from .sorts import TypeDesc
@@ -973,7 +982,40 @@ def _s_join(interp, path, args, kw):
             parts.append(x)
         return mkstr(parts)
     _check_str_items(interp, t)
-    return mkstr([JoinT(sep, t)])
+    res = mkstr([JoinT(sep, t)])
+    if getattr(interp, 'join_laws', False) and isinstance(sep, str) and sep:
+        join_laws(interp, path, sep, t, res)
+    return res
+
+
+def join_laws(interp, path, sep, t, res):
+    """Trusted laws of str.join / str.split (validated against CPython by tools/selftest.py), given to the path
+    only after their side conditions have been PROVED at a fresh index:
+       for L whose elements are non-empty and do not contain sep, J = sep.join(L):
+         J == ''  <=>  len(L) == 0;   sep in J  <=>  len(L) >= 2;   len(L) == 1  =>  J == L[0];
+         len(L) >= 1  =>  J.split(sep) == L;   c in J  =>  some element contains c   (c not a substring of sep)"""
+    seqz = interp.to_zseq(t)
+    if seqz is None:
+        return
+    zj = to_zstr(res)
+    zsep = z3.StringVal(sep)
+    i0 = z3.Int(fresh_name('jl'))
+    sub = path.child()
+    sub.add_index(i0)
+    inr = z3.And(i0 >= 0, i0 < z3.Length(seqz))
+    if not sub.entails(z3.Implies(inr, z3.And(z3.Length(seqz[i0]) > 0, z3.Not(z3.Contains(seqz[i0], zsep))))):
+        return
+    n = z3.Length(seqz)
+    path.add_index(z3.IntVal(0))
+    path.define((z3.Length(zj) == 0) == (n == 0))
+    path.define(z3.Contains(zj, zsep) == (n >= 2))
+    path.define(z3.Implies(n == 1, zj == seqz[0]))
+    f = uf(interp, f'py.split[{sep!r}]', z3.StringSort(), z3.SeqSort(z3.StringSort()))
+    path.define(z3.Implies(n >= 1, f(zj) == seqz))
+    for c in ('.', ':'):
+        if c not in sep:
+            if sub.entails(z3.Implies(inr, z3.Not(z3.Contains(seqz[i0], z3.StringVal(c))))):
+                path.define(z3.Not(z3.Contains(zj, z3.StringVal(c))))
 
 
 def _check_str_items(interp, t):
@@ -1057,7 +1099,7 @@ def part_break_free(interp, path, p):
     key = p.get_id()
     cache = path.__dict__.setdefault('_bf', {})
     if key not in cache:
-        cache[key] = path.entails(ops.no_break(p))
+        cache[key] = path.entails(ops.no_break(p, path))
     return cache[key]
 
 
@@ -1108,17 +1150,17 @@ def strip_term(interp, path, z, mode, depth=0):
         return r
     reg.add(key)
     empty = z3.StringVal('')
-    first_ws = ops.ws_char(ops.first_char(z))
-    last_ws = ops.ws_char(ops.last_char(z))
-    r_first_ws = ops.ws_char(ops.first_char(r))
-    r_last_ws = ops.ws_char(ops.last_char(r))
-    path.define((r == empty) == ops.all_ws(z))
+    first_ws = ops.ws_char(ops.first_char(z), path)
+    last_ws = ops.ws_char(ops.last_char(z), path)
+    r_first_ws = ops.ws_char(ops.first_char(r), path)
+    r_last_ws = ops.ws_char(ops.last_char(r), path)
+    path.define((r == empty) == ops.all_ws(z, path))
     if mode == 'strip':
         lead = uf(interp, 'py.strip.lead', S, S)(z)
         trail = uf(interp, 'py.strip.trail', S, S)(z)
         path.define(z == z3.Concat(lead, r, trail))
-        path.define(ops.all_ws(lead))
-        path.define(ops.all_ws(trail))
+        path.define(ops.all_ws(lead, path))
+        path.define(ops.all_ws(trail, path))
         path.define(z3.Or(r == empty, z3.And(z3.Not(r_first_ws), z3.Not(r_last_ws))))
         if depth == 0:
             rs = strip_term(interp, path, z, 'rstrip', 1)
@@ -1128,13 +1170,13 @@ def strip_term(interp, path, z, mode, depth=0):
     elif mode == 'rstrip':
         trail = uf(interp, 'py.rstrip.trail', S, S)(z)
         path.define(z == z3.Concat(r, trail))
-        path.define(ops.all_ws(trail))
+        path.define(ops.all_ws(trail, path))
         path.define(z3.Or(r == empty, z3.Not(r_last_ws)))
         path.define(z3.Implies(z3.And(z3.Length(z) > 0, z3.Not(last_ws)), r == z))
     else:
         lead = uf(interp, 'py.lstrip.lead', S, S)(z)
         path.define(z == z3.Concat(lead, r))
-        path.define(ops.all_ws(lead))
+        path.define(ops.all_ws(lead, path))
         path.define(z3.Or(r == empty, z3.Not(r_first_ws)))
         path.define(z3.Implies(z3.And(z3.Length(z) > 0, z3.Not(first_ws)), r == z))
     return r
@@ -1258,7 +1300,7 @@ def _l_pop(interp, path, args, kw):
             from .sorts import TypeDesc
             td = TypeDesc('str')
         last = interp.wrap_elem(td, z[n - 1])
-        lst.term = interp.seq_of_base(z3.SubSeq(z, 0, n - 1), td, path)
+        lst.term = interp.seq_of_base(ops.subseq(z, 0, n - 1), td, path)
         return last
     raise Unsupported('pop on symbolic list')
 
@@ -1510,6 +1552,25 @@ def deepcopy_value(interp, v, memo=None):
         return r
     if isinstance(v, tuple):
         return tuple(deepcopy_value(interp, x, memo) for x in v)
+    if isinstance(v, DtV) and v.cls.is_dataclass:
+        # a deep copy of an immutable symbolic instance is a FRESH heap object with the same field values
+        from .path import Path as _P
+        path = getattr(interp, '_deepcopy_path', None)
+        if path is None:
+            return v
+        if interp.sorts.is_recursive(v.cls):
+            return v
+        r = ObjV(v.cls, {})
+        r.fresh_in = interp.act_counter
+        for (fname, td) in interp.sorts.fields_of(v.cls):
+            x = interp.getattr_(v, fname, path)
+            if isinstance(x, SeqV):
+                x = SeqV(x.term)        # fresh, unfrozen list with the same elements
+                x.fresh_in = interp.act_counter
+            elif isinstance(x, DtV):
+                x = deepcopy_value(interp, x, memo)
+            r.fields[fname] = x
+        return r
     return v
 
 
@@ -1524,7 +1585,11 @@ def _copy_term(interp, t: SeqT, memo):
 
 
 def _deepcopy(interp, path, args, kw):
-    return deepcopy_value(interp, args[0])
+    interp._deepcopy_path = path
+    try:
+        return deepcopy_value(interp, args[0])
+    finally:
+        interp._deepcopy_path = None
 
 
 def _ospath(name):
@@ -1603,12 +1668,20 @@ def _re_apply(interp, path, mode, pat, s):
     core, anchored_start, dollar_end = _parse_regex(pat)
     full = z3.Full(z3.ReSort(z3.StringSort()))
     r = core
+    is_ident_re = core.sexpr() == ops.ident_regex().sexpr()
+
+    def in_core(zz):
+        if is_ident_re:
+            return ops.is_ident(zz, path)
+        ops.REGEX_USED[0] = True
+        return z3.InRe(zz, r)
     if mode == 'fullmatch':
         # '$' before a final newline cannot help a full match: nothing is left to consume the newline
-        return z3.InRe(z, r)
+        return in_core(z)
+    ops.REGEX_USED[0] = True
     if mode == 'match':
         if dollar_end:
-            return z3.Or(z3.InRe(z, r), z3.InRe(z, z3.Concat(r, z3.Re(z3.StringVal('\n')))))
+            return z3.Or(in_core(z), z3.InRe(z, z3.Concat(r, z3.Re(z3.StringVal('\n')))))
         return z3.InRe(z, z3.Concat(r, full))
     if mode == 'search':
         pre = full if not anchored_start else z3.Re(z3.StringVal(''))
